@@ -796,8 +796,850 @@ def run_pairs(ctx):
     return zoo
 
 
+# ---------------------------------------------------------------------------
+# membership, element creation
+
+def space_desc(s, reg):
+    """descriptor as printed back by the driver (array weightings without digest)"""
+    import re
+    return re.sub(r'wa\((np|ps),(\d+),[0-9a-f]+,', r'wa(\1,\2,', describe_space(s, reg))
+
+
+def is_space(o):
+    import odl
+    from odl.space.npy_tensors import NumpyTensorSpace
+    return type(o) in (NumpyTensorSpace, odl.DiscretizedSpace, odl.ProductSpace)
+
+
+def some_element(space, rng):
+    """an element of `space` with small dyadic values (None if the dtype has no numbers)"""
+    import odl
+    if isinstance(space, odl.ProductSpace):
+        parts = [some_element(c, rng) for c in space.spaces]
+        if any(p is None for p in parts):
+            return None
+        return space.element(parts)
+    if space.dtype.kind not in 'iufcb':
+        return None
+    n = int(np.prod(space.shape, dtype='int64'))
+    vals = np.array([rng.randint(0, 12) / 4 for _ in range(n)]).reshape(space.shape)
+    return space.element(vals.astype(space.dtype))
+
+
+def run_membership(ctx, zoo):
+    import odl
+    rng = ctx.rng
+    spaces = [(n, o) for n, _, o in zoo if is_space(o)]
+    elems = []
+    for n, sp in spaces:
+        try:
+            x = some_element(sp, rng)
+        except Exception as e:  # noqa
+            viol(ctx, 'element-raises {} input=own-values'.format(cls(sp)),
+                 '{}: creating an element raised {}: {}'.format(n, type(e).__name__, str(e)[:120]),
+                 {'kind': 'member', 'space': n})
+            continue
+        if x is not None:
+            elems.append((n, sp, x))
+    junk = [('None', None), ('3', 3), ('ndarray', np.zeros(3)), ('list', [0.0, 0.0, 0.0]),
+            ('str', 'abc'), ('space', odl.rn(3))]
+    lines, meta = [], []
+    reg = Reg()
+    for xn, xs, x in elems:
+        for tn, t in spaces:
+            try:
+                m = x in t
+                e = (x.space == t)
+            except Exception as ex:  # noqa
+                viol(ctx, 'member-raises {} in {}'.format(cls(xs), cls(t)),
+                     'element of {} in {} raised {}'.format(xn, tn, type(ex).__name__),
+                     {'kind': 'member', 'x': xn, 'space': tn})
+                continue
+            ctx.case(('member', cls(xs), cls(t), bool(m)) if type(xs) is type(t) else None)
+            if bool(m) != bool(e) or not isinstance(m, (bool, np.bool_)):
+                viol(ctx, 'member-mismatch {} in {}'.format(cls(xs), cls(t)),
+                     'x in S is {} but x.space == S is {} (x from {}, S = {})'.format(m, e, xn, tn),
+                     {'kind': 'member', 'x': xn, 'space': tn})
+            if type(xs) is type(t) and rng.random() < (0.15 if ctx.quick else 0.6):
+                try:
+                    lines.append('contains S={} x={}'.format(describe_space(t, reg),
+                                                            describe_space(xs, reg)))
+                    meta.append((xn, tn, bool(m)))
+                except ValueError:
+                    pass
+    for tn, t in spaces:
+        for jn, j in junk:
+            try:
+                m = j in t
+            except Exception as ex:  # noqa
+                m = 'raises ' + type(ex).__name__
+            ctx.case(None)
+            if m is not False:
+                viol(ctx, 'member-junk {} in {}'.format(jn, cls(t)),
+                     '{} in {} gives {}'.format(jn, tn, m), {'kind': 'member', 'x': jn, 'space': tn})
+        try:
+            lines.append('contains S={} x=nospace'.format(describe_space(t, reg)))
+            meta.append(('junk', tn, False))
+        except ValueError:
+            pass
+    outs = core.run_driver('C20', lines)
+    for (xn, tn, m), ans in zip(meta, outs):
+        ctx.hit('contains/' + ('t' if m else 'f'))
+        if ans != 'ok ' + ('t' if m else 'f'):
+            ctx.disagree({'kind': 'member', 'x': xn, 'space': tn}, m, ans)
+    return spaces, elems
+
+
+def exact_vals(arr):
+    a = np.asarray(arr)
+    if a.dtype.kind == 'c':
+        if np.any(a.imag != 0):
+            raise ValueError('complex values outside the model')
+        a = a.real
+    if a.dtype.kind == 'b':
+        a = a.astype(int)
+    return [fs(v) for v in a.ravel(order='C').tolist()]
+
+
+def describe_inp(inp, reg, space=None):
+    """wire form of an input offered to `space.element`; plain sequences are read the way the
+    target space reads them (item-wise for product spaces, as one array-like otherwise)"""
+    import odl
+    if isinstance(inp, odl.space.pspace.ProductSpaceElement):
+        comps = [None] * len(inp.parts)
+        if isinstance(space, odl.ProductSpace) and len(space) == len(inp.parts):
+            comps = list(space.spaces)
+        return 'pe({},{})'.format(describe_space(inp.space, reg),
+                                  L(describe_inp(p, reg, c) for p, c in zip(inp.parts, comps)))
+    if hasattr(inp, 'space') and hasattr(inp, 'asarray'):
+        if isinstance(space, odl.ProductSpace):
+            raise ValueError('tensor element offered to a product space: iteration over '
+                             'elements is outside the model')
+        a = inp.asarray()
+        return 'el({},{},{},{})'.format(describe_space(inp.space, reg),
+                                        L(str(n) for n in a.shape), dtype_w(a.dtype),
+                                        L(exact_vals(a)))
+    if isinstance(inp, np.ndarray):
+        return 'ar(1,{},{},{})'.format(L(str(n) for n in inp.shape), dtype_w(inp.dtype),
+                                       L(exact_vals(inp)))
+    if isinstance(space, odl.ProductSpace) and isinstance(inp, (list, tuple)):
+        comps = list(space.spaces) + [None] * max(0, len(inp) - len(space))
+        return 'sq({})'.format(L(describe_inp(p, reg, c) for p, c in zip(inp, comps)))
+    if isinstance(space, odl.ProductSpace):
+        raise ValueError('non-sequence input for a product space is outside the model')
+    a = np.asarray(inp)
+    if a.dtype == object:
+        raise ValueError('ragged input outside the model')
+    return 'ar(0,{},{},{})'.format(L(str(n) for n in a.shape), dtype_w(a.dtype),
+                                   L(exact_vals(a)))
+
+
+def _is_numeric_nest(p):
+    try:
+        a = np.asarray(p)
+    except Exception:  # noqa
+        return False
+    return a.dtype != object and a.dtype.kind in 'iufcb' and not isinstance(p, np.ndarray)
+
+
+def source_array(inp):
+    if isinstance(inp, np.ndarray):
+        return inp
+    if hasattr(inp, 'tensor'):
+        return inp.tensor.data
+    if hasattr(inp, 'data') and isinstance(getattr(inp, 'data'), np.ndarray):
+        return inp.data
+    return None
+
+
+def canon_result(res, inp):
+    """canonical outcome string of `space.element(inp)` in the driver's format"""
+    import odl
+    from odl.space.npy_tensors import NumpyTensor
+    if res is inp:
+        return 'same'
+    if isinstance(res, NumpyTensor):
+        src = source_array(inp)
+        if res.data.size > 0:
+            sh = int(src is not None and np.shares_memory(res.data, src))
+        else:   # nothing to share: report what the code path would do (no copy iff same dtype)
+            sh = int(src is not None and src.dtype == res.data.dtype)
+        return 'T({};{};{};{})'.format(dtype_w(res.dtype), L(str(n) for n in res.shape),
+                                       L(exact_vals(res.data)), sh)
+    if isinstance(res, odl.DiscretizedSpaceElement):
+        if res.tensor is inp:
+            return 'D(1;same)'
+        return 'D(0;{})'.format(canon_result(res.tensor, inp))
+    if isinstance(res, odl.space.pspace.ProductSpaceElement):
+        items = list(inp.parts) if hasattr(inp, 'parts') else list(inp)
+        if len(items) == len(res.parts) and all(p is q for p, q in zip(res.parts, items)):
+            return 'P(1;L())'
+        return 'P(0;{})'.format(L(canon_result(p, q) for p, q in zip(res.parts, items)))
+    return 'other:' + type(res).__name__
+
+
+def flat_values(x):
+    import odl
+    if isinstance(x, odl.space.pspace.ProductSpaceElement):
+        return [v for p in x.parts for v in flat_values(p)]
+    if hasattr(x, 'asarray'):
+        return np.asarray(x.asarray()).ravel().tolist()
+    if isinstance(x, (list, tuple)) and x and not _is_numeric_nest(x):
+        return [v for p in x for v in flat_values(p)]
+    return np.asarray(x).ravel().tolist()
+
+
+def expected_element(space, inp):
+    """Oracle, independent of the model: ('same',) / ('values', flat list) / ('raise',)."""
+    import odl
+    if getattr(inp, 'space', None) is not None and inp.space == space:
+        return ('same',)
+    if isinstance(space, odl.ProductSpace):
+        items = list(inp.parts) if hasattr(inp, 'parts') else list(inp)
+        if len(items) != len(space):
+            return ('raise',)
+        vals = []
+        for it, sp in zip(items, space.spaces):
+            e = expected_element(sp, it)
+            if e[0] == 'raise':
+                return e
+            vals.extend(flat_values(it) if e[0] == 'same' else e[1])
+        return ('values', vals)
+    a = np.asarray(inp.asarray() if hasattr(inp, 'asarray') else inp)
+    shape = (1,) * max(0, space.ndim - a.ndim) + a.shape
+    if shape != tuple(space.shape):
+        return ('raise',)
+    with np.errstate(all='ignore'):
+        return ('values', a.astype(space.dtype).ravel().tolist())
+
+
+def element_cases(ctx, spaces, elems):
+    """(target name, target, input kind, input)"""
+    import odl
+    rng = ctx.rng
+    by_space = {}
+    for n, sp, x in elems:
+        by_space.setdefault(cls(sp), []).append((n, sp, x))
+
+    def arr(shape, dt):
+        n = int(np.prod(shape)) if shape else 1
+        vals = np.array([rng.randint(-12, 12) / 4 for _ in range(n)]).reshape(shape)
+        if np.dtype(dt).kind == 'u':
+            vals = np.abs(vals)
+        return vals.astype(dt)
+    targets = [(n, sp) for n, sp in spaces if sp.dtype.kind in 'iufc'] if False else []
+    for n, sp in spaces:
+        try:
+            if isinstance(sp, odl.ProductSpace):
+                ok = all(c.dtype.kind in 'iufc' for c in _leaves(sp))
+            else:
+                ok = sp.dtype.kind in 'iufc'
+        except Exception:  # noqa
+            ok = False
+        if ok:
+            targets.append((n, sp))
+    seen_recipe = set()
+    for tn, t in targets:
+        if tn in seen_recipe:
+            continue
+        seen_recipe.add(tn)
+        # elements of this / equal / other spaces of the same class
+        pool = by_space.get(cls(t), [])
+        own = [e for e in pool if e[1] == t]
+        others = [e for e in pool if not (e[1] == t)]
+        rng.shuffle(others)
+        for xn, xs, x in own[:2] + others[:(3 if ctx.quick else 10)]:
+            yield tn, t, 'element-of:' + ('equal-space' if xs == t else 'other-space'), x
+        if isinstance(t, odl.ProductSpace):
+            if len(t) == 0:
+                continue
+            good = [some_element(c, rng) for c in t.spaces]
+            yield tn, t, 'list-of-members', list(good)
+            yield tn, t, 'tuple-of-members', tuple(good)
+            yield tn, t, 'list-too-short', list(good[:-1])
+            yield tn, t, 'list-too-long', list(good) + [good[0]]
+            if t.is_power_space and not isinstance(t.spaces[0], odl.ProductSpace):
+                full = (len(t),) + tuple(t.spaces[0].shape)
+                yield tn, t, 'ndarray-stacked', arr(full, 'float64')
+                yield tn, t, 'ndarray-stacked-wrong-length', arr((len(t) + 1,) + full[1:],
+                                                                 'float64')
+                yield tn, t, 'nested-list-stacked', arr(full, 'float64').tolist()
+            try:
+                raw = [_raw_input(c, rng, arr) for c in t.spaces]
+                yield tn, t, 'list-of-arrays', raw
+                mixed = [g if k % 2 else r for k, (g, r) in enumerate(zip(good, raw))]
+                yield tn, t, 'list-mixed', mixed
+                bad = list(raw)
+                bad[-1] = _wrong_shape_input(t.spaces[-1], arr)
+                yield tn, t, 'list-last-wrong-shape', bad
+            except NotImplementedError:
+                pass
+            continue
+        sh, dt = tuple(t.shape), t.dtype
+        yield tn, t, 'ndarray-same-dtype', arr(sh, dt)
+        for odt in ('float64', 'float32', 'int64', 'int32', 'uint8', 'complex128'):
+            if np.dtype(odt) != dt and not (np.dtype(odt).kind == 'c' and dt.kind != 'c'):
+                src = arr(sh, odt)
+                if np.dtype(odt).kind == 'c':
+                    src = src.real.astype(odt)
+                if dt.kind == 'u':
+                    src = np.abs(src)
+                yield tn, t, 'ndarray-' + odt, src
+        yield tn, t, 'nested-list', (np.abs(arr(sh, 'float64')) if dt.kind == 'u'
+                                     else arr(sh, 'float64')).tolist()
+        yield tn, t, 'wrong-shape-longer', arr(tuple(n + 1 for n in sh) or (2,), dt)
+        yield tn, t, 'wrong-shape-extra-axis', arr(sh + (2,), dt)
+        if len(sh) >= 1:
+            yield tn, t, 'axis-dropped', arr(sh[1:], dt)        # ok iff sh[0] == 1
+            yield tn, t, 'axis-prepended', arr((1,) + sh, dt)   # never ok
+        yield tn, t, 'scalar', 1.5
+        if isinstance(t, odl.DiscretizedSpace):
+            yield tn, t, 'tspace-element', t.tspace.element(arr(sh, dt))
+            other_ts = odl.rn(sh, dtype=dt, weighting=7.0) if dt.kind == 'f' else None
+            if other_ts is not None:
+                yield tn, t, 'other-tspace-element', other_ts.element(arr(sh, dt))
+            yield tn, t, 'forced:own-element', t.element(arr(sh, dt))
+        else:
+            yield tn, t, 'forced:own-element', t.element(arr(sh, dt))
+            yield tn, t, 'forced:ndarray', arr(sh, dt)
+
+
+def _has_complex(inp):
+    if hasattr(inp, 'parts'):
+        return any(_has_complex(p) for p in inp.parts)
+    if hasattr(inp, 'dtype'):
+        return np.dtype(inp.dtype).kind == 'c'
+    if isinstance(inp, (list, tuple)):
+        return any(_has_complex(p) for p in inp)
+    return isinstance(inp, complex)
+
+
+def _leaves(sp):
+    import odl
+    if isinstance(sp, odl.ProductSpace):
+        for c in sp.spaces:
+            for l in _leaves(c):
+                yield l
+    else:
+        yield sp
+
+
+def _raw_input(space, rng, arr):
+    import odl
+    if isinstance(space, odl.ProductSpace):
+        return [_raw_input(c, rng, arr) for c in space.spaces]
+    return arr(tuple(space.shape), 'float64' if space.dtype.kind != 'c' else 'float64')
+
+
+def _wrong_shape_input(space, arr):
+    import odl
+    if isinstance(space, odl.ProductSpace):
+        return [arr((2,), 'float64')] * (len(space) + 1)
+    return arr(tuple(n + 1 for n in space.shape) or (2,), 'float64')
+
+
+def run_elements(ctx, spaces, elems):
+    import warnings
+    lines, meta = [], []
+    for tn, t, kind, inp in element_cases(ctx, spaces, elems):
+        forced = kind.startswith('forced:')
+        if _has_complex(inp) and any(c.dtype.kind != 'c' for c in _leaves(t)):
+            continue   # complex -> real casts: NumPy-specific (warning / TypeError), not modelled
+        reg = Reg()
+        with warnings.catch_warnings():
+            warnings.simplefilter('ignore')
+            try:
+                res = t.element(inp, order='C') if forced else t.element(inp)
+                impl = canon_result(res, inp)
+                err = None
+            except Exception as e:  # noqa
+                res, err = None, e
+                impl = {'ValueError': 'errValue', 'TypeError': 'errType'}.get(
+                    type(e).__name__, 'err:' + type(e).__name__)
+            # oracle
+            try:
+                exp = expected_element(t, inp)
+            except Exception as e:  # noqa
+                exp = ('unknown', str(e))
+        key_in = kind.split(':')[0] if forced else kind
+        rep = {'kind': 'element', 'space': tn, 'input': kind}
+        if forced:
+            exp = ('values', exp[1] if exp[0] == 'values' else flat_values(inp)) \
+                if exp[0] != 'raise' else exp
+        if exp[0] == 'same':
+            if res is not inp:
+                viol(ctx, 'element-not-idempotent {} input={}'.format(cls(t), key_in),
+                     '{}.element(x) for x in the space returned {}'.format(tn, impl[:80]), rep)
+        elif exp[0] == 'raise':
+            if err is None:
+                viol(ctx, 'element-no-shape-error {} input={}'.format(cls(t), key_in),
+                     '{}.element(<{}>) returned {} instead of raising'.format(tn, kind, impl[:80]),
+                     rep)
+            elif not isinstance(err, (ValueError, TypeError)):
+                viol(ctx, 'element-wrong-error {} input={}'.format(cls(t), key_in),
+                     '{}.element(<{}>) raised {}'.format(tn, kind, type(err).__name__), rep)
+        elif exp[0] == 'values':
+            if err is not None:
+                viol(ctx, 'element-raises {} input={}'.format(cls(t), key_in),
+                     '{}.element(<{}>) raised {}: {}'.format(tn, kind, type(err).__name__,
+                                                            str(err)[:100]), rep)
+            else:
+                problems = []
+                if res is inp and not forced:
+                    problems.append('returned the input although it is not in the space')
+                if not (res in t):
+                    problems.append('result is not in the space')
+                got = flat_values(res)
+                if len(got) != len(exp[1]) or any(
+                        not (g == e or (g != g and e != e)) for g, e in zip(got, exp[1])):
+                    problems.append('values {} != converted input {}'.format(got[:6], exp[1][:6]))
+                if problems:
+                    viol(ctx, 'element-wrong-values {} input={}'.format(cls(t), key_in),
+                         '{}.element(<{}>): {}'.format(tn, kind, '; '.join(problems)), rep)
+        ctx.case(('element', cls(t), key_in, impl.split('(')[0], forced),
+                 sample=({'space': tn, 'input': kind, 'impl': impl[:100]}
+                         if len(ctx.samples) < 12 and ctx.rng.random() < 0.02 else None))
+        ctx.hit('element/{}/{}'.format(cls(t), impl.split('(')[0].split(';')[0]))
+        try:
+            line = 'element S={} inp={} forced={}'.format(describe_space(t, reg),
+                                                         describe_inp(inp, reg, t), int(forced))
+        except ValueError as e:
+            ctx.notes.append('element case not modelled: {} <{}> ({})'.format(tn, kind, e))
+            continue
+        lines.append(line)
+        meta.append((rep, impl))
+    outs = core.run_driver('C20', lines)
+    for (rep, impl), ans in zip(meta, outs):
+        if ans != 'ok ' + impl:
+            ctx.disagree(rep, impl[:300], ans[:300])
+
+
+# ---------------------------------------------------------------------------
+# derived spaces and indexing
+
+def pidx_wire(idx, n):
+    if isinstance(idx, int):
+        return 'i({})'.format(idx % n) if -n <= idx < n else None
+    if isinstance(idx, slice):
+        start, stop, step = idx.indices(n)
+        cnt = len(range(start, stop, step))
+        return 'sl({},{},{})'.format(max(start, 0), cnt, step)
+    if isinstance(idx, list):
+        if all(-n <= i < n for i in idx):
+            return 'li({})'.format(L(str(i % n) for i in idx))
+    return None
+
+
+def weighting_equal_selection(new_w, old_w, sel):
+    """oracle: the weighting of a product-space selection: same class/exponent, constants
+    kept, arrays restricted to the selection"""
+    if type(new_w) is not type(old_w) or new_w.exponent != old_w.exponent:
+        return False
+    if hasattr(old_w, 'const'):
+        return new_w.const == old_w.const
+    if hasattr(old_w, 'array'):
+        return sel is not None and np.array_equal(np.asarray(new_w.array),
+                                                  np.asarray(old_w.array)[sel])
+    return new_w == old_w
+
+
+def run_derived(ctx, spaces, elems):
+    import odl
+    import warnings
+    from odl.space.npy_tensors import NumpyTensorSpace
+    from odl.space.weighting import ArrayWeighting
+    rng = ctx.rng
+    lines, meta = [], []
+    T = __import__('odl.util.utility', fromlist=['x'])
+    targets = ['float32', 'float64', 'float16', 'complex64', 'complex128', 'int64', 'uint8', 'bool']
+    seen = set()
+
+    def send(rep, line, impl):
+        lines.append(line)
+        meta.append((rep, impl))
+
+    def outcome(thunk, reg):
+        with warnings.catch_warnings():
+            warnings.simplefilter('ignore')
+            try:
+                r = thunk()
+            except Exception as e:  # noqa
+                return None, e, 'raise'
+        try:
+            return r, None, 'ok ' + space_desc(r, reg)
+        except ValueError:
+            return r, None, 'unmodelled'
+    for sn, s in spaces:
+        if sn in seen:
+            continue
+        seen.add(sn)
+        is_t = type(s) is NumpyTensorSpace
+        is_d = type(s) is odl.DiscretizedSpace
+        is_p = type(s) is odl.ProductSpace
+        leaf_dtypes = [c.dtype for c in _leaves(s)]
+        # ---- astype
+        for dt in targets:
+            reg = Reg()
+            r, err, impl = outcome(lambda: s.astype(dt), reg)
+            rep = {'kind': 'derived', 'op': 'astype', 'space': sn, 'dtype': dt}
+            ctx.case(('astype', cls(s), dt, impl.split(' ')[0]))
+            ctx.hit('astype/{}/{}'.format(cls(s), impl.split(' ')[0]))
+            w = getattr(s, 'weighting', None) if not is_d else s.tspace.weighting
+            castok = 1
+            narrow = False
+            if isinstance(w, ArrayWeighting) and not is_p:
+                castok = int(np.can_cast(w.array.dtype, np.dtype(dt)))
+                narrow = not castok
+            if is_p:
+                narrow = any(isinstance(c.weighting if not isinstance(c, odl.DiscretizedSpace)
+                                        else c.tspace.weighting, ArrayWeighting) and
+                             not np.can_cast((c.weighting if not isinstance(
+                                 c, odl.DiscretizedSpace) else c.tspace.weighting).array.dtype,
+                                 np.dtype(dt)) for c in _leaves(s))
+            # oracle
+            if err is not None:
+                expected_raise = narrow or any(d.kind not in 'iufcb' for d in leaf_dtypes) or \
+                    (is_p and len(s) == 0)
+                if not expected_raise:
+                    viol(ctx, 'derived-raises {} op=astype'.format(cls(s)),
+                         '{}.astype({}) raised {}: {}'.format(sn, dt, type(err).__name__,
+                                                              str(err)[:100]), rep)
+            else:
+                probs = []
+                if [tuple(c.shape) for c in _leaves(r)] != [tuple(c.shape) for c in _leaves(s)]:
+                    probs.append('shape {} != {}'.format(r.shape, s.shape))
+                if any(c.dtype != np.dtype(dt) for c in _leaves(r)):
+                    probs.append('dtype is not ' + dt)
+                if all(d == np.dtype(dt) for d in leaf_dtypes) and leaf_dtypes and r is not s:
+                    probs.append('astype(own dtype) is not the space itself')
+                if not is_p and np.dtype(dt).kind in 'fc' and leaf_dtypes[0].kind in 'fc':
+                    if not (r.weighting == s.weighting and r.exponent == s.exponent):
+                        probs.append('weighting/exponent not kept: {} vs {}'.format(
+                            r.weighting, s.weighting))
+                if not is_p:
+                    f = r.field
+                    want = (odl.ComplexNumbers() if np.dtype(dt).kind == 'c' else
+                            odl.RealNumbers() if np.dtype(dt).kind in 'iuf' else None)
+                    if f != want:
+                        probs.append('field {} for dtype {}'.format(f, dt))
+                if is_d and not (r.partition == s.partition):
+                    probs.append('partition changed')
+                if probs:
+                    viol(ctx, 'derived-wrong {} op=astype'.format(cls(s)),
+                         '{}.astype({}): {}'.format(sn, dt, '; '.join(probs)), rep)
+                if is_p and r is not s and not weighting_equal_selection(
+                        r.weighting, s.weighting, slice(None)):
+                    viol(ctx, 'derived-weighting-dropped ProductSpace op=astype',
+                         '{}.astype({}) has weighting {} instead of {}'.format(
+                             sn, dt, r.weighting, s.weighting), rep)
+            if impl != 'unmodelled' and not (is_p and narrow):
+                try:
+                    send(rep, 'derive op=astype S={} dt={} castok={}'.format(
+                        describe_space(s, reg), dtype_w(dt), castok), impl)
+                except ValueError:
+                    pass
+        # ---- real_space / complex_space
+        for op in ('real_space', 'complex_space'):
+            reg = Reg()
+            r, err, impl = outcome(lambda: getattr(s, op), reg)
+            rep = {'kind': 'derived', 'op': op, 'space': sn}
+            ctx.case((op, cls(s), impl.split(' ')[0]))
+            ctx.hit('{}/{}/{}'.format(op, cls(s), impl.split(' ')[0]))
+            numeric = all(d.kind in 'iufc' for d in leaf_dtypes) and leaf_dtypes
+            want_dt = None
+            if numeric:
+                try:
+                    want_dt = [(T.TYPE_MAP_C2R if op == 'real_space' else T.TYPE_MAP_R2C).get(
+                        d, d if (op == 'real_space' and d.kind in 'iu') else None)
+                        for d in leaf_dtypes]
+                    if op == 'complex_space':
+                        want_dt = [d if d.kind == 'c' else T.TYPE_MAP_R2C.get(d)
+                                   for d in leaf_dtypes]
+                except Exception:  # noqa
+                    want_dt = None
+            w = getattr(s, 'weighting', None) if not is_d else s.tspace.weighting
+            castok = 1
+            if isinstance(w, ArrayWeighting) and not is_p and want_dt and want_dt[0] is not None:
+                castok = int(np.can_cast(w.array.dtype, want_dt[0]))
+            if err is not None:
+                if numeric and want_dt and all(d is not None for d in want_dt) and castok \
+                        and not (is_p and len(s) == 0):
+                    viol(ctx, 'derived-raises {} op={}'.format(cls(s), op),
+                         '{}.{} raised {}: {}'.format(sn, op, type(err).__name__,
+                                                      str(err)[:100]), rep)
+            else:
+                probs = []
+                if not numeric:
+                    probs.append('returned for a non-numeric dtype')
+                elif [c.dtype for c in _leaves(r)] != want_dt:
+                    probs.append('dtypes {} != {}'.format([c.dtype for c in _leaves(r)], want_dt))
+                if [tuple(c.shape) for c in _leaves(r)] != [tuple(c.shape) for c in _leaves(s)]:
+                    probs.append('shape changed')
+                if not is_p and leaf_dtypes[0].kind in 'fc' and not (
+                        r.weighting == s.weighting and r.exponent == s.exponent):
+                    probs.append('weighting/exponent not kept')
+                # involution on exact real/complex pairs
+                if not is_p and not probs and leaf_dtypes[0].kind in 'fc' and \
+                        leaf_dtypes[0] != np.dtype('float16'):
+                    try:
+                        back = r.complex_space if leaf_dtypes[0].kind == 'c' else r.real_space
+                        if not (back == s) or hash(back) != hash(s):
+                            probs.append('round trip gives {} != {}'.format(back, s))
+                    except Exception as e:  # noqa
+                        probs.append('round trip raised ' + type(e).__name__)
+                if probs:
+                    viol(ctx, 'derived-wrong {} op={}'.format(cls(s), op),
+                         '{}.{}: {}'.format(sn, op, '; '.join(probs)), rep)
+                if is_p and not weighting_equal_selection(r.weighting, s.weighting, slice(None)):
+                    viol(ctx, 'derived-weighting-dropped ProductSpace op=' + op,
+                         '{}.{} has weighting {} instead of {}'.format(
+                             sn, op, r.weighting, s.weighting), rep)
+            if is_t and impl != 'unmodelled':
+                try:
+                    send(rep, 'derive op={} S={} castok={}'.format(
+                        op.split('_')[0], describe_space(s, reg), castok), impl)
+                except ValueError:
+                    pass
+        # ---- product space indexing
+        if is_p:
+            n = len(s)
+            idxs = [0, n - 1, -1, n, slice(None), slice(1, None), slice(None, -1),
+                    slice(None, None, 2), slice(None, None, -1), slice(n, n), [0], [n - 1, 0],
+                    [0, 0], list(range(n))]
+            for idx in idxs:
+                if isinstance(idx, int) and n == 0 and idx != n:
+                    continue
+                if isinstance(idx, list) and n == 0:
+                    continue
+                reg = Reg()
+                r, err, impl = outcome(lambda: s[idx], reg)
+                rep = {'kind': 'derived', 'op': 'pspace-getitem', 'space': sn, 'index': str(idx)}
+                kind = type(idx).__name__
+                ctx.case(('pindex', kind, impl.split(' ')[0], n))
+                ctx.hit('pindex/{}/{}'.format(kind, impl.split(' ')[0]))
+                valid = not isinstance(idx, int) or -n <= idx < n
+                if err is not None:
+                    if valid:
+                        viol(ctx, 'derived-raises ProductSpace op=getitem index=' + kind,
+                             '{}[{}] raised {}: {}'.format(sn, idx, type(err).__name__,
+                                                           str(err)[:100]), rep)
+                elif not valid:
+                    viol(ctx, 'derived-wrong ProductSpace op=getitem index=' + kind,
+                         '{}[{}] did not raise'.format(sn, idx), rep)
+                elif isinstance(idx, int):
+                    if r is not s.spaces[idx]:
+                        viol(ctx, 'derived-wrong ProductSpace op=getitem index=int',
+                             '{}[{}] is not the component'.format(sn, idx), rep)
+                else:
+                    sel = s.spaces[idx] if isinstance(idx, slice) else tuple(
+                        s.spaces[i] for i in idx)
+                    probs = []
+                    if len(r.spaces) != len(sel) or any(a is not b for a, b in zip(r.spaces, sel)):
+                        probs.append('components are not the selected ones')
+                    if r.field != s.field:
+                        probs.append('field {} != {}'.format(r.field, s.field))
+                    if probs:
+                        viol(ctx, 'derived-wrong ProductSpace op=getitem index=' + kind,
+                             '{}[{}]: {}'.format(sn, idx, '; '.join(probs)), rep)
+                    if not weighting_equal_selection(r.weighting, s.weighting, idx):
+                        viol(ctx, 'derived-weighting-dropped ProductSpace op=getitem',
+                             '{}[{}] has weighting {} instead of the selection of {}'.format(
+                                 sn, idx, r.weighting, s.weighting), rep)
+                w = pidx_wire(idx, n)
+                if impl != 'unmodelled' and (w is not None or not valid):
+                    try:
+                        send(rep, 'derive op=pindex S={} idx={}'.format(
+                            describe_space(s, reg), w or 'i({})'.format(n + 5)), impl)
+                    except ValueError:
+                        pass
+            # tuple indices (oracle only): P[i, j] is P[i][j]
+            for i in range(min(n, 2)):
+                if isinstance(s.spaces[i], odl.ProductSpace) and len(s.spaces[i]) > 0:
+                    try:
+                        ok = s[i, 0] is s.spaces[i].spaces[0] and s[(i,)] is s.spaces[i]
+                    except Exception as e:  # noqa
+                        ok = False
+                    ctx.case(('pindex', 'tuple', ok))
+                    if not ok:
+                        viol(ctx, 'derived-wrong ProductSpace op=getitem index=tuple',
+                             '{}[{},0] is not {}[{}][0]'.format(sn, i, sn, i),
+                             {'kind': 'derived', 'op': 'pspace-getitem', 'space': sn})
+        # ---- byaxis (tensor spaces) / byaxis_in (discretized spaces)
+        if (is_t or is_d) and s.ndim >= 1:
+            nd = s.ndim
+            idxs = [0, nd - 1, slice(None), slice(1, None), slice(None, None, -1), [0],
+                    [nd - 1, 0], [0, 0]]
+            w = s.weighting if is_t else s.tspace.weighting
+            for idx in idxs:
+                reg = Reg()
+                r, err, impl = outcome(
+                    lambda: (s.byaxis if is_t else s.byaxis_in)[idx], reg)
+                kind = type(idx).__name__
+                rep = {'kind': 'derived', 'op': 'byaxis', 'space': sn, 'index': str(idx)}
+                ctx.case(('byaxis', cls(s), kind, impl.split(' ')[0],
+                          isinstance(w, ArrayWeighting)))
+                ctx.hit('byaxis/{}/{}'.format(cls(s), impl.split(' ')[0]))
+                if isinstance(w, ArrayWeighting):
+                    continue   # selection of an axis from a full-shape weight array: undefined
+                if s.dtype.kind not in 'iufc':
+                    continue   # byaxis passes `weighting=` on, which non-numeric spaces reject
+                if is_d and not isinstance(idx, int) and len(
+                        s.shape[idx] if isinstance(idx, slice) else idx) == 0:
+                    continue   # empty selection of a partition: no cell volume
+                if is_d and not s.is_uniform:
+                    continue   # byaxis_in uses partition.cell_volume, NaN for non-uniform grids
+                if is_d and isinstance(idx, slice) and (idx.step or 1) < 0:
+                    continue   # RectPartition.byaxis keeps the axis order for slices (C14)
+                want_shape = ((s.shape[idx],) if isinstance(idx, int) else
+                              tuple(s.shape[idx]) if isinstance(idx, slice) else
+                              tuple(s.shape[i] for i in idx))
+                if err is not None:
+                    viol(ctx, 'derived-raises {} op=byaxis'.format(cls(s)),
+                         '{}.byaxis[{}] raised {}: {}'.format(sn, idx, type(err).__name__,
+                                                              str(err)[:100]), rep)
+                    continue
+                probs = []
+                if tuple(r.shape) != want_shape:
+                    probs.append('shape {} != {}'.format(r.shape, want_shape))
+                if r.dtype != s.dtype or r.exponent != s.exponent or type(r) is not type(s):
+                    probs.append('dtype/exponent/class changed')
+                if is_t and not (r.weighting == s.weighting):
+                    probs.append('weighting changed')
+                if is_d:
+                    try:
+                        if not (r.partition == s.partition.byaxis[idx]):
+                            probs.append('partition is not the selected one')
+                    except Exception as e:  # noqa
+                        probs.append('partition comparison raised ' + type(e).__name__)
+                if probs:
+                    viol(ctx, 'derived-wrong {} op=byaxis'.format(cls(s)),
+                         '{}.byaxis[{}]: {}'.format(sn, idx, '; '.join(probs)), rep)
+                wire = pidx_wire(idx, nd)
+                if is_t and impl != 'unmodelled' and wire:
+                    try:
+                        send(rep, 'derive op=byaxis S={} idx={}'.format(
+                            describe_space(s, reg), wire), impl)
+                    except ValueError:
+                        pass
+    # ---- element indexing commutes with asarray
+    done = set()
+    for xn, xs, x in elems:
+        if xn in done:
+            continue
+        done.add(xn)
+        if type(xs) is odl.ProductSpace:
+            if len(xs) == 0:
+                continue
+            n = len(xs)
+            idxs = [0, -1, slice(None), slice(1, None), slice(None, None, 2), [0], [n - 1, 0]]
+            if xs.is_power_space and not isinstance(xs.spaces[0], odl.ProductSpace) \
+                    and xs.spaces[0].ndim == 1:
+                idxs += [(0, 0), (n - 1, slice(1, None)), (slice(None), 0)]
+            for idx in idxs:
+                rep = {'kind': 'index', 'space': xn, 'index': str(idx)}
+                ctx.case(('pelem-index', type(idx).__name__, xs.is_power_space))
+                try:
+                    y = x[idx]
+                    if isinstance(idx, int):
+                        ok = y is x.parts[idx]
+                    elif isinstance(idx, tuple):
+                        ref = x.asarray()[idx]
+                        got = np.asarray(y)
+                        ok = np.array_equal(got.reshape(ref.shape), ref)
+                    else:
+                        sel = x.parts[idx] if isinstance(idx, slice) else [x.parts[i] for i in idx]
+                        ok = len(y.parts) == len(sel) and all(a is b for a, b in zip(y.parts, sel))
+                        if xs.is_power_space and len(sel) > 0:
+                            ok = ok and np.array_equal(y.asarray(), x.asarray()[idx])
+                    what = 'x[{}] does not select the same entries as x.asarray()[{}]'.format(
+                        idx, idx)
+                except Exception as e:  # noqa
+                    ok, what = False, 'x[{}] raised {}: {}'.format(idx, type(e).__name__,
+                                                                   str(e)[:80])
+                if not ok:
+                    leafw = ['array' if isinstance(
+                        c.weighting if type(c) is NumpyTensorSpace else c.tspace.weighting,
+                        ArrayWeighting) else 'other' for c in _leaves(xs)]
+                    viol(ctx, 'index-wrong ProductSpaceElement index={} weighting={}'.format(
+                        type(idx).__name__, 'array' if 'array' in leafw else 'other'),
+                         '{}: {}'.format(xn, what), rep)
+            continue
+        if xs.ndim == 0 or xs.size == 0:
+            continue
+        w = xs.weighting if is_space(xs) and type(xs) is NumpyTensorSpace else xs.tspace.weighting
+        nd = xs.ndim
+        idxs = [0, -1, slice(None), slice(1, None), slice(None, None, 2), slice(None, None, -1),
+                [0], [xs.shape[0] - 1, 0], Ellipsis]
+        if nd >= 2:
+            idxs += [(0, 0), (slice(None), 0), (0, slice(1, None)), (slice(None), slice(None, 1)),
+                     ([0, 0], [0, xs.shape[1] - 1])]
+        for idx in idxs:
+            rep = {'kind': 'index', 'space': xn, 'index': str(idx)}
+            ref = x.asarray()[idx]
+            reg = Reg()
+            arrw = isinstance(w, ArrayWeighting)
+            ctx.case(('elem-index', cls(xs), type(idx).__name__, np.isscalar(ref) or ref.ndim == 0,
+                      arrw))
+            try:
+                y = x[idx]
+                err = None
+            except Exception as e:  # noqa
+                y, err = None, e
+            ts = xs if type(xs) is NumpyTensorSpace else xs.tspace
+            if err is not None:
+                viol(ctx, 'index-raises {} weighting={}'.format(
+                    type(x).__name__, 'array' if arrw else 'other'),
+                    '{}: x[{}] raised {}: {}'.format(xn, idx, type(err).__name__, str(err)[:80]),
+                    rep)
+                impl = 'raise'
+            else:
+                got = np.asarray(y)
+                probs = []
+                if got.shape != np.shape(ref) or not np.array_equal(got, ref):
+                    probs.append('values differ from x.asarray()[idx]')
+                if hasattr(y, 'space'):
+                    if y.space.dtype != xs.dtype or y.space.exponent != xs.exponent:
+                        probs.append('dtype/exponent of the result space changed')
+                    if not arrw and not (y.space.weighting == ts.weighting):
+                        probs.append('weighting of the result space changed')
+                    if y not in y.space:
+                        probs.append('result not in its own space')
+                if probs:
+                    viol(ctx, 'index-wrong {} weighting={}'.format(
+                        type(x).__name__, 'array' if arrw else 'other'),
+                        '{}: x[{}]: {}'.format(xn, idx, '; '.join(probs)), rep)
+                impl = ('ok ' + space_desc(y.space, reg)) if hasattr(y, 'space') else None
+            if impl is not None and np.ndim(ref) > 0 and xs.dtype.kind in 'iufc':
+                try:
+                    send(rep, 'derive op=indexspace S={} shape={}'.format(
+                        describe_space(ts, reg), L(str(k) for k in np.shape(ref))), impl)
+                except ValueError:
+                    pass
+    outs = core.run_driver('C20', lines)
+    for (rep, impl), ans in zip(meta, outs):
+        if ans != impl:
+            ctx.disagree(rep, impl[:300], ans[:300])
+
+
+def regenerate(ctx):
+    from extract import dtypes as extract_dtypes
+    changed = extract_dtypes.regenerate()
+    return [('extract(dtype tables -> Gen/DTypeTables.lean)', True,
+             'regenerated' if changed else 'unchanged')]
+
+
+EXTRA_TARGETS = ('OdlModel.Gen.DTypeTables',)
+
+
+def run_all(ctx):
+    zoo = run_pairs(ctx)
+    spaces, elems = run_membership(ctx, zoo)
+    run_elements(ctx, spaces, elems)
+    run_derived(ctx, spaces, elems)
+
+
 def run(ctx):
-    run_pairs(ctx)
+    run_all(ctx)
 
 
 def search(ctx, broken):
